@@ -431,3 +431,20 @@ package goja
 //@   ensures old(vm.tryStack[len(vm.tryStack)-1].exception) == nil ==> len(vm.tryStack) == old(len(vm.tryStack))-1 [frame-popped-exactly-once]
 //@   ensures old(vm.tryStack[len(vm.tryStack)-1].exception) == nil && old(vm.tryStack[len(vm.tryStack)-1].finallyRet) != -1 ==> same(vm.result, old(vm.tryStack[len(vm.tryStack)-1].result)) && vm.pc == int(old(vm.tryStack[len(vm.tryStack)-1].finallyRet)) [normal-finally-hands-back-the-parked-completion]
 //@   ensures old(vm.tryStack[len(vm.tryStack)-1].exception) == nil && old(vm.tryStack[len(vm.tryStack)-1].finallyRet) == -1 ==> same(vm.result, old(vm.result)) && vm.pc == old(vm.pc)+1 [falls-through]
+
+// The other Go entry points that run script (New, Set, the Object methods of value.go, ExportTo of an
+// iterable) go through Runtime.try, i.e. vm.try, whose handler re-panics what is not a script
+// exception. C15 asks that the outermost pending call RETURNS the InterruptedError: stated on New as
+// the representative; it does not hold (recorded in /verif/known_findings.json).
+//@ func (*Runtime).try
+//@   props C15
+//@   maypanic
+//@   requires r != nil && r.vm != nil
+//@   ensures_abrupt !specIsScriptError(panicValue) [no-script-exception-escapes-as-a-panic]
+//@   assigns script, @vmRegs
+
+//@ func (*Runtime).New
+//@   props C15
+//@   maypanic
+//@   requires r != nil && r.vm != nil
+//@   ensures_abrupt !specIsUncatchable(panicValue) [an-interrupt-is-returned-to-the-go-caller-not-panicked]
